@@ -131,10 +131,15 @@ class Geometry:
             self.cached_voxel_volume = self.voxel_volume * scaling
 
         # ! ---- Perform spatial integration
+        voxel_volume = self.cached_voxel_volume
+        if isinstance(voxel_volume, np.ndarray):
+            # Align spatially varying volumes with additional time and data axes.
+            extra_axes = len(fetched_data.shape) - len(voxel_volume.shape)
+            voxel_volume = voxel_volume.reshape(voxel_volume.shape + extra_axes * (1,))
         if isinstance(data, np.ndarray):
-            weighted_sum = np.multiply(self.cached_voxel_volume, data)
+            weighted_sum = np.multiply(voxel_volume, data)
         elif isinstance(data, darsia.Image):
-            weighted_sum = np.multiply(self.cached_voxel_volume, data.img)
+            weighted_sum = np.multiply(voxel_volume, data.img)
         else:
             raise ValueError("Data type not supported.")
         for i in range(self.space_dim):
